@@ -169,6 +169,11 @@ func (s *SkipList[K, V]) Remove(key K) (V, bool) {
 
 // Clear removes all nodes from the skip list.
 func (s *SkipList[K, V]) Clear() {
+	if s.head.next == nil {
+		// zero value: nothing to clear, keep it lazily initialized
+		return
+	}
+
 	s.head.next = make([]*SkipNode[K, V], maxLevel)
 	s.len = 0
 	s.level = 1
